@@ -30,6 +30,15 @@ def make_cases(ctx, ncases, nops, weights=None, consumer=True, mdib_files=('7004
         f = mdib_files[i % len(mdib_files)]
         rng = random.Random(ctx.rng.getrandbits(48))
         g = mdibgen.Gen(rng, inventory(ctx, f), weights, iface_mix)
+        # InstanceId of the provider (None = absent is the library default, the test device uses 1), and - in a
+        # third of the cases with a consumer - transactions of every kind that the provider commits while the
+        # consumer's FIRST GetMdib is in flight
+        inst = rng.choice([1, 1, 0, 0, None, 7])
+        during = None
+        if consumer and rng.random() < 0.34:
+            keep, g.w['delstate'] = g.w.get('delstate', 0), 0     # (a deletion the consumer cannot follow: known finding)
+            during = g.every_kind_ops() if rng.random() < 0.6 else g.history(rng.randint(1, 4))
+            g.w['delstate'] = keep
         if i < nscen:
             j = i // len(mdib_files)
             ops = mdibgen.scenario(g, j, rng.choice(['classic', 'entity', None, None]))
@@ -38,6 +47,10 @@ def make_cases(ctx, ncases, nops, weights=None, consumer=True, mdib_files=('7004
             c = {'mdib': f, 'seed': i + 1, 'consumer': consumer, 'ops': ops, 'scenario': mdibgen.SCENARIOS[j % len(mdibgen.SCENARIOS)].__name__}
         else:
             c = {'mdib': f, 'seed': i + 1, 'consumer': consumer, 'ops': g.history(rng.randint(max(2, nops // 3), nops))}
+        c['inst'] = inst
+        if during:
+            c['init_during'] = during
+        c['_gen'] = g
         cases.append(c)
     return cases
 
@@ -47,8 +60,9 @@ def run_histories(ctx, stream, ncases, nops, weights=None, consumer=True, mdib_f
     cases = make_cases(ctx, ncases, nops, weights, consumer, mdib_files, iface_mix, scenarios)
     for c in cases:
         rng = random.Random(ctx.rng.getrandbits(48))
+        g = c.pop('_gen')
         if extra:
-            c.update(extra(rng, c) if callable(extra) else extra)
+            c.update(extra(rng, c, g) if callable(extra) else extra)
     # long (crafted) histories first, spread over the batches
     order = sorted(range(len(cases)), key=lambda i: -len(cases[i]['ops']))
     nb = max(1, (len(cases) + batch - 1) // batch)
@@ -84,6 +98,20 @@ def op_histogram(pairs):
         hist[key] = hist.get(key, 0) + n
     for c, r in pairs:
         inc('file=' + c.get('mdib', ''))
+        inc('InstanceId=' + str(c.get('inst', 'default')))
+        # reports that reached the consumer while its GetMdib was in flight (first load / reload_all): committed after
+        # the snapshot = buffered and replayed; committed before it = buffered and dropped as older
+        logs = [('first-load', r['init'].get('during'))] + [('reload', st.get('during')) for st in r['trace']]
+        for name, log in logs:
+            if log:
+                inc(f'{name}-with-commits-in-flight')
+                for sub in log[1:]:
+                    for kind, ver in sub.get('reports', []):
+                        inc(f'in-flight/{name}/{"newer" if ver is not None and ver > log[0]["snapshot_ver"] else "older"}:{kind}')
+        for st in r['trace']:
+            for d in st.get('inflight') or []:
+                if d.get('kind') and not d.get('other') and d.get('cmode') == 'initializing':
+                    inc(f'in-flight/reload/sent-before-the-snapshot:{d["kind"]}')
         if c.get('scenario'):
             inc('crafted' + c['scenario'])
         tb = mdibgen.Tables(r['init']['prov'])
@@ -226,7 +254,8 @@ def report_correspondence(ctx, stream, pairs, mdib_files):
     for c, r in pairs:
         name, _u, h, _e = tr.case(c, r)
         _cname, _cu, steps, _cexp = tr.consumer_case(c, r)
-        inst = r['init']['prov'].get('inst') or 0
+        inst = r['init']['prov'].get('inst')
+        inst = -1 if inst is None else inst
         cases.append((f'({name}, {inst}, {h})', steps))
     header = DHEADER + '\n'.join(tr.init_defs.values())
     run = "fun c => let '(m, inst, h) := c in dreports 1 inst m h"
